@@ -333,9 +333,9 @@ def _worker(kc):
     return [(k, c) + x for x in CHECKERS[k](c)]
 
 
-WORDS = ['apple', 'pear', 'ape', 'a', 'banana', 'Apple', '', 'Pear', 'PEAR', 'APPLE']
+WORDS = ['apple', 'pear', 'ape', 'pears', 'apex', 'a', 'banana', 'Apple', '', 'Pear', 'PEAR', 'APPLE', 'appletree', 'spear']   # incl. words that extend a match at either end
 CRITS = ['>0', '>=2', '<3', '<=-1', '<>2', '=2', '2', '0.5', '>0.5', 'a*', '?ear', '*an*', 'pear', '=pear', '<>pear', '*',
-         'A*', 'Pear', 'PEAR', '=Pear', ' pear', 'pear ', 'APPLE', 'apple', '<>Apple', '?EAR']   # case/blank variants: criteria are case-sensitive text
+         'A*', 'Pear', 'PEAR', '=Pear', ' pear', 'pear ', 'APPLE', 'apple', '<>Apple', '?EAR', 'a?e', 'p*r', '?pple', 'a*e', '*ear', 'ap?']   # case/blank variants: criteria are case-sensitive text
 
 
 def explore(ctx):
